@@ -61,11 +61,11 @@ const (
 )
 
 // _refKey identifies an encoded object, list or map: objects are the same only if the address and
-// the kind are the same (a slice starts at the address of its first element, a struct at the
-// address of its first field)
+// the type are the same (a slice starts at the address of its first element, a struct at the
+// address of its first field, and every nil or empty slice at the same address)
 type _refKey struct {
 	addr unsafe.Pointer
-	kind reflect.Kind
+	typ  reflect.Type
 }
 
 func refTag(tag byte) bool {
@@ -83,7 +83,7 @@ func (e *Encoder) writeRef(index int) (int, error) {
 // otherwise, add the object into the encode ref map
 func (e *Encoder) checkEncodeRefMap(v reflect.Value) (int, bool) {
 	var (
-		kind reflect.Kind
+		typ  reflect.Type
 		addr unsafe.Pointer
 	)
 
@@ -91,15 +91,16 @@ func (e *Encoder) checkEncodeRefMap(v reflect.Value) (int, bool) {
 		for v.Elem().Kind() == reflect.Ptr {
 			v = v.Elem()
 		}
-		kind = v.Elem().Kind()
+		typ = v.Elem().Type()
+		kind := v.Elem().Kind()
 		if kind == reflect.Slice || kind == reflect.Map {
 			addr = unsafe.Pointer(v.Elem().Pointer())
 		} else {
 			addr = unsafe.Pointer(v.Pointer())
 		}
 	} else {
-		kind = v.Kind()
-		switch kind {
+		typ = v.Type()
+		switch v.Kind() {
 		case reflect.Slice, reflect.Map:
 			addr = unsafe.Pointer(v.Pointer())
 		default:
@@ -107,15 +108,15 @@ func (e *Encoder) checkEncodeRefMap(v reflect.Value) (int, bool) {
 		}
 	}
 
-	key := _refKey{addr, kind}
+	key := _refKey{addr, typ}
 	if index, ok := e.refMap[key]; ok {
-		// fmt.Printf("-----> find ref: %d, %p, %v, %v\n", index, addr, kind, v)
+		// fmt.Printf("-----> find ref: %d, %p, %v, %v\n", index, addr, typ, v)
 		return index, ok
 	}
 
 	// every container that is written gets the next ordinal, as it does in the decoder
 	e.refMap[key] = len(e.refMap)
-	// fmt.Printf("---> add ref: %d, %p, %v, %v\n", len(e.refMap)-1, addr, kind, v)
+	// fmt.Printf("---> add ref: %d, %p, %v, %v\n", len(e.refMap)-1, addr, typ, v)
 	return 0, false
 }
 
